@@ -76,7 +76,9 @@ SPEC = dict(
         "Coq 8.16.1 kernel (coqc); Flocq 4.1.0 (binary32 semantics); vm_compute only in finite sweeps / Example lemmas",
         "extraction: ExtrOcamlBasic only (nat, N, Z, positive, Q kept as extracted inductives); OCaml 4.13.1",
         "translator translate/pwm_complement.py (regex extraction of enum discriminants, symbols(), as_str(), "
-        "complement() arms from abc.rs into coq/pwm/GenComplement.v)",
+        "complement() arms from abc.rs into coq/pwm/GenComplement.v); the translate step of this SPEC also regenerates "
+        "coq/pwm/GenPwmSkel.v (translate/pwm_skel.py, statement skeletons of pwm/mod.rs used by C09_source_skeleton) because "
+        "groups importing LMPwm (e2e, sampler) call this translator",
         "hand-written OCaml driver ocaml/pwm/driver.ml (parsing, oracle table, tolerances, comparison)",
         "Rust harness harness/src/bin/pwm.rs (builds the reverse-complemented sequence with Dna::complement, "
         "stripes with the generic pipeline, catch_unwind)",
